@@ -82,6 +82,8 @@ fn gens(tier: Tier) -> Vec<Gen> {
         Gen { name: "after-many-abandoned-attempts", count: 2, exhaustive: true, run: run_after_abandoned },
         Gen { name: "second-use", count: 4, exhaustive: true, run: run_second_use },
         Gen { name: "unresponsive", count: 24, exhaustive: true, run: run_unresponsive },
+        Gen { name: "short-connect-timeout", count: 24, exhaustive: true, run: run_short_connect_timeout },
+        Gen { name: "late-acceptor", count: 3, exhaustive: true, run: run_late_acceptor },
     ]
 }
 
@@ -588,6 +590,173 @@ fn run_unresponsive(ctx: &mut Ctx, _rng: &mut Rng, index: u64) {
     }
     ctx.nontrivial(format!("unresp{index}").as_bytes());
     ctx.sample(|| json!({"gen": "unresponsive", "v6": format!("{b6:?}"), "v4": format!("{b4:?}"), "elapsed_ms": out.elapsed.as_millis() as u64}));
+}
+
+/// a connect timeout shorter than (or about) a race interval, with and without a far overall
+/// deadline: an attempt that gives up on its own connect timeout says nothing about the overall
+/// deadline, the remaining addresses are still tried and the first acceptor is found
+fn run_short_connect_timeout(ctx: &mut Ctx, _rng: &mut Rng, index: u64) {
+    use Beh::*;
+    let shapes: [(&[Beh], &[Beh]); 4] = [(&[BlackHole], &[Accept]), (&[BlackHole, Accept], &[BlackHole]), (&[], &[BlackHole, BlackHole, Accept]), (&[Refuse, BlackHole], &[BlackHole, Accept])];
+    let (b6, b4) = shapes[(index % 4) as usize];
+    let ct = [120u64, 150, 300][((index / 4) % 3) as usize];
+    let deadline = [Deadline::None, Deadline::Long][((index / 12) % 2) as usize];
+    let mut last = None;
+    for attempt in 0..3 {
+        if oversleep() > Duration::from_millis(150) {
+            std::thread::sleep(Duration::from_millis(200));
+            continue;
+        }
+        let out = run_case(b6, b4, false, deadline, ct);
+        let timing = out.violation.as_ref().map_or(false, |(s, _)| s.starts_with("timing:"));
+        last = Some(out);
+        if timing && attempt < 2 {
+            ctx.count("timing_verdicts_rechecked", 1);
+            continue;
+        }
+        break;
+    }
+    let out = match last {
+        Some(o) => o,
+        None => return ctx.inconclusive("machine too loaded"),
+    };
+    if let Some(why) = out.inconclusive {
+        return ctx.inconclusive(why);
+    }
+    if let Some((s, d)) = out.violation {
+        ctx.violation(format!("short-connect-timeout:{s}"), d);
+    }
+    ctx.count("short_connect_timeout_cases", 1);
+    if deadline == Deadline::Long {
+        ctx.count("short_connect_timeout_with_far_deadline", 1);
+    }
+    ctx.nontrivial(format!("sct{index}").as_bytes());
+    ctx.sample(|| json!({"gen": "short-connect-timeout", "v6": format!("{b6:?}"), "v4": format!("{b4:?}"), "connect_timeout_ms": ct, "deadline": format!("{deadline:?}"), "elapsed_ms": out.elapsed.as_millis() as u64}));
+}
+
+/// an address that drops the first SYN and accepts the retransmitted one (about 1 s later)
+struct LateAcceptor {
+    addr: SocketAddr,
+    listener: Option<TcpListener>,
+    parked: Vec<TcpStream>,
+    requests: Arc<AtomicUsize>,
+    stop: Arc<AtomicBool>,
+    handle: Option<std::thread::JoinHandle<()>>,
+}
+
+impl LateAcceptor {
+    fn new(v6: bool) -> Option<LateAcceptor> {
+        let b = BlackHole::new(v6)?;
+        Some(LateAcceptor { addr: b.addr, listener: Some(b._listener), parked: b._parked, requests: Arc::new(AtomicUsize::new(0)), stop: Arc::new(AtomicBool::new(false)), handle: None })
+    }
+
+    /// from `after` on the accept queue is drained and every connection is served
+    fn open_after(&mut self, after: Duration) {
+        let l = self.listener.take().unwrap();
+        let parked = std::mem::take(&mut self.parked);
+        let (r2, s2) = (self.requests.clone(), self.stop.clone());
+        self.handle = Some(std::thread::spawn(move || {
+            std::thread::sleep(after);
+            drop(parked);
+            let _ = l.set_nonblocking(true);
+            while !s2.load(Ordering::Relaxed) {
+                match l.accept() {
+                    Ok((mut s, _)) => {
+                        let _ = s.set_nonblocking(false);
+                        let _ = s.set_read_timeout(Some(Duration::from_secs(7)));
+                        let mut buf = Vec::new();
+                        let mut b = [0u8; 512];
+                        while !buf.windows(4).any(|w| w == b"\r\n\r\n") {
+                            match s.read(&mut b) {
+                                Ok(0) | Err(_) => break,
+                                Ok(n) => buf.extend_from_slice(&b[..n]),
+                            }
+                        }
+                        if buf.windows(4).any(|w| w == b"\r\n\r\n") {
+                            r2.fetch_add(1, Ordering::SeqCst);
+                            let _ = s.write_all(b"HTTP/1.1 200 OK\r\nContent-Length: 2\r\n\r\nok");
+                        }
+                    }
+                    Err(_) => std::thread::sleep(Duration::from_millis(2)),
+                }
+            }
+        }));
+    }
+}
+
+impl Drop for LateAcceptor {
+    fn drop(&mut self) {
+        self.stop.store(true, Ordering::Relaxed);
+        if let Some(h) = self.handle.take() {
+            let _ = h.join();
+        }
+    }
+}
+
+/// the preferred address answers late (its first SYN is lost, the retransmission about 1 s later
+/// is accepted) and every later address never answers: the connection that the first attempt
+/// establishes is handed out when it is ready, not after the last attempt has run into its
+/// connect timeout (5 s here)
+fn run_late_acceptor(ctx: &mut Ctx, _rng: &mut Rng, index: u64) {
+    let (slow_v6, dead): (bool, &[bool]) = [(false, &[false][..]), (true, &[false][..]), (false, &[false, false][..])][(index % 3) as usize];
+    for attempt in 0..3 {
+        if oversleep() > Duration::from_millis(150) {
+            std::thread::sleep(Duration::from_millis(200));
+            if attempt == 2 {
+                ctx.inconclusive("machine too loaded");
+            }
+            continue;
+        }
+        let mut slow = match LateAcceptor::new(slow_v6) {
+            Some(s) => s,
+            None => return ctx.inconclusive("could not set up the late acceptor"),
+        };
+        let mut holes = Vec::new();
+        for v6 in dead {
+            match BlackHole::new(*v6) {
+                Some(h) => holes.push(h),
+                None => return ctx.inconclusive("could not set up black-hole peers"),
+            }
+        }
+        let host = format!("late{}.test", HOST_SEQ.fetch_add(1, Ordering::Relaxed));
+        let mut addrs = vec![slow.addr];
+        addrs.extend(holes.iter().map(|h| h.addr));
+        set_resolver_override(&host, Some(addrs));
+        slow.open_after(Duration::from_millis(400));
+        let t0 = Instant::now();
+        let res = attohttpc::get(format!("http://{host}:9/c17")).connect_timeout(Duration::from_secs(5)).read_timeout(Duration::from_secs(5)).send().map(|r| r.status().as_u16()).map_err(|e| format!("{e:?}"));
+        let elapsed = t0.elapsed();
+        set_resolver_override(&host, None);
+        let reqs = slow.requests.load(Ordering::SeqCst);
+        {
+            let mut yard = GRAVEYARD.lock().unwrap();
+            for h in holes {
+                yard.push_back((Instant::now(), h));
+            }
+        }
+        let descr = format!("addresses [late acceptor ({}; accepts from 400 ms on, i.e. the SYN retransmitted after about 1 s), {} black-hole(s)], connect_timeout 5 s: {res:?} after {elapsed:?}; the late acceptor served {reqs} request(s)", if slow_v6 { "v6" } else { "v4" }, dead.len());
+        ctx.max("late_acceptor_elapsed_ms_max", elapsed.as_millis() as u64);
+        let verdict = if res != Ok(200) {
+            Some("timing:late-acceptor:connect-failed-although-an-address-accepts")
+        } else if reqs != 1 {
+            Some("late-acceptor:request-not-at-the-acceptor")
+        } else if elapsed > Duration::from_millis(2600) {
+            Some("timing:late-acceptor:established-connection-handed-out-late")
+        } else {
+            None
+        };
+        if let Some(v) = verdict {
+            if v.starts_with("timing:") && attempt < 2 {
+                ctx.count("timing_verdicts_rechecked", 1);
+                continue;
+            }
+            ctx.violation(v, descr);
+        }
+        ctx.count("late_acceptor_cases", 1);
+        ctx.sample(|| json!({"gen": "late-acceptor", "black_holes_after_it": dead.len(), "elapsed_ms": elapsed.as_millis() as u64}));
+        break;
+    }
+    ctx.nontrivial(format!("late{index}").as_bytes());
 }
 
 /// boundary values of connect_timeout ("no limit" spellings): an address that accepts is still
